@@ -22,18 +22,16 @@ Proof.
   destruct v; [reflexivity|]. rewrite counts_eqb_refl. reflexivity.
 Qed.
 
-(* the boolean used by Stream/Reader.v reader_open is the pinned verdict *)
-Lemma compatible_is_pinned : forall own other,
-  compatible own other = negb (is_incompat (compat3 VPinned own other)).
+(* the boolean used by Stream/Reader.v reader_open is the verdict of the current code *)
+Lemma compatible_is_current : forall own other,
+  compatible own other = negb (is_incompat (compat3 VCurrent own other)).
 Proof.
   intros own other. unfold compatible, compat3.
   destruct (length other <? length own)%nat; [reflexivity|].
   destruct (length own <? length other)%nat; [reflexivity|].
-  destruct (N.ltb_spec (sum_counts other) (sum_counts own)) as [H|H].
-  - cbn. apply N.leb_le. lia.
-  - destruct (N.ltb_spec (sum_counts own) (sum_counts other)) as [H2|H2]; cbn.
-    + apply N.leb_gt. exact H2.
-    + apply N.leb_le. exact H2.
+  destruct (sum_counts other <? sum_counts own); [reflexivity|].
+  destruct (sum_counts own <? sum_counts other); [reflexivity|].
+  destruct (counts_eqb own other); reflexivity.
 Qed.
 
 (* the repair only turns some "exact" verdicts into "incompatible" *)
@@ -144,13 +142,13 @@ Proof.
 Qed.
 
 (* ------------------------------------------------------------------ server side = reader_open *)
-Lemma server_open_pinned_is_reader_open : forall sc root src fl content src' schema_bytes ud counts,
+Lemma server_open_current_is_reader_open : forall sc root src fl content src' schema_bytes ud counts,
   next_frame src = inr (fl, content, src') ->
   (var_hdr_limit <? N.of_nat (length content)) = false ->
   parse_var_header content = inr (schema_bytes, ud) ->
   schema_bytes <> [] ->
   parse_wire_schema schema_bytes = inr counts ->
-  match server_open VPinned sc root (Some counts) with
+  match server_open VCurrent sc root (Some counts) with
   | Some t => reader_open sc root src = inr (mkReader t src' 0 0 rst0 (PM.empty _) RNil (Some counts) ud)
   | None => reader_open sc root src = inl (PBad EInvalid)
   end.
@@ -158,8 +156,8 @@ Proof.
   intros sc root src fl content src' sb ud counts Hn Hl Hp Hne Hw.
   unfold reader_open, server_open. rewrite Hn, Hl, Hp.
   destruct sb as [|b sb]; [contradiction|]. rewrite Hw.
-  rewrite compatible_is_pinned.
-  destruct (is_incompat (compat3 VPinned (own_counts sc root) counts)); cbn [negb]; [reflexivity|].
+  rewrite compatible_is_current.
+  destruct (is_incompat (compat3 VCurrent (own_counts sc root) counts)); cbn [negb]; [reflexivity|].
   destruct (build_root sc root (Some counts)) as [t ist].
   destruct (i_err ist || negb (all_fetched ist)); reflexivity.
 Qed.
@@ -168,7 +166,7 @@ Lemma server_open_none_is_reader_open : forall sc root src fl content src' ud,
   next_frame src = inr (fl, content, src') ->
   (var_hdr_limit <? N.of_nat (length content)) = false ->
   parse_var_header content = inr ([], ud) ->
-  match server_open VPinned sc root None with
+  match server_open VCurrent sc root None with
   | Some t => reader_open sc root src = inr (mkReader t src' 0 0 rst0 (PM.empty _) RNil None ud)
   | None => reader_open sc root src = inl (PBad EInvalid)
   end.
@@ -179,7 +177,7 @@ Proof.
   destruct (i_err ist || negb (all_fetched ist)); reflexivity.
 Qed.
 
-(* whatever the repaired server accepts, the pinned reader model accepts with the same tree *)
+(* whatever the repaired server accepts, the code as found accepted with the same tree *)
 Lemma server_open_current_pinned : forall sc root d t,
   server_open VCurrent sc root d = Some t -> server_open VPinned sc root d = Some t.
 Proof.
